@@ -9,8 +9,16 @@ func (rt *runtime) cmplEvaluateNodeProgram(node *nodeProgram, eval bool) Value {
 		rt.enterGlobalScope()
 		defer rt.leaveScope()
 	}
+	// 10.5 step 2: declaration bindings of eval code are configurable. The flag
+	// belongs to the code being instantiated, not to the (possibly shared)
+	// execution context of a direct eval.
+	savedEval := rt.scope.eval
+	if eval {
+		rt.scope.eval = true
+	}
 	rt.cmplFunctionDeclaration(node.functionList)
 	rt.cmplVariableDeclaration(node.varList)
+	rt.scope.eval = savedEval
 	if eval {
 		// Direct eval code runs in the scope (and stack frame) of its caller:
 		// give the frame back its own file when the eval code is done, also
